@@ -426,7 +426,7 @@ def run(rep, tier, seed, selftest):
     for note in argspart["notes"]:
         rep.note_drift(note)
     # fourth part (CliSession.tla): several emissions into ONE output directory (what an invocation may take from the directory it finds)
-    sesspart = c18_session.run_part(penne, root, tier, findings, selftest)
+    sesspart = c18_session.run_part(penne, root, tier, findings, selftest, seed)
     # classified, not part of the product: an absolute input path (the property quantifies over relative ones)
     probe = os.path.join(root, "abs")
     os.makedirs(probe)
@@ -470,7 +470,7 @@ def run(rep, tier, seed, selftest):
     coverage = {
         "states": r.distinct + sesspart["states"],
         "transitions": r.generated + sesspart["transitions"],
-        "traces_validated_against_impl": len(idx) + argspart["configurations"] + argspart["fuzz_configurations"] + sesspart["behaviours"],
+        "traces_validated_against_impl": len(idx) + argspart["configurations"] + argspart["fuzz_configurations"] + sesspart["behaviours"] + sesspart["recorded_sessions"],
         "samples": [{"cfg": canon(cases[i]["cfg"]), "expect": cases[i]["expect"]} for i in sample_idx],
         "evaluations": len(idx) + argspart["configurations"] + argspart["fuzz_configurations"] + sesspart["behaviours"],
         "distinct_nontrivial": len(nontrivial) + argspart["configurations"] + argspart["fuzz_configurations"] + sesspart["behaviours_reusing_a_directory"],
@@ -479,9 +479,10 @@ def run(rep, tier, seed, selftest):
                 "--backend-args / --link-args by flag and / or config file, wasm = true and broken config files, 1-3 input files in both orders, "
                 "unreadable inputs, out dirs that are missing / deep / a regular file, scheme paths, the same module twice, --color never under "
                 "NO_COLOR / TERM=dumb, plus the full product of `penne fuzz tokens`; all replayed. Fourth part (CliSession.tla): every sequence of up to 4 (quick) / 5 (thorough) steps "
-                "among emit (both modules / the imported one, native / --wasm), edit of ONE source text, a foreign file planted at the path of an IR file, removal of an IR "
+                "among emit, to one step less also build with the recording backend (both modules / the imported one, native / --wasm), edit of ONE source text, a foreign file planted at the path of an IR file, removal of an IR "
                 "file, all in one output directory; TLC checks that the rule makes an emission a function of sources and target alone, every behaviour is replayed and "
-                "after each emission every IR file is compared with what the binary writes into an empty directory. "
+                "after each emission every IR file is compared with what the binary writes into an empty directory; "
+                "40 (400) random sessions of 25 steps are recorded from the real binary and validated by TLC against the same specification (Trace_CliSession.tla). "
                 "Non-trivial = distinct configurations replayed + behaviours that reuse a directory holding files." %
                 (len(cases), "a pairwise cover plus a seeded sample" if tier == "quick" else "all of them"),
         "exhaustive": tier != "quick",
